@@ -1227,8 +1227,12 @@ func c15History(rng *rand.Rand, ring *c15Ring, nops int) *c15In {
 // ---------------------------------------------------------------- stream / replay
 
 func c15Stream(o *Out, rng *rand.Rand, n int) {
-	if os.Getenv("VERIF_C15_CHILD") != "" {
-		c15Child()
+	if c := os.Getenv("VERIF_C15_CHILD"); c != "" {
+		if strings.HasPrefix(c, "overlap:") {
+			c15OChild(c[8:])
+		} else {
+			c15Child()
+		}
 		os.Exit(0)
 	}
 	ring := c15GetRing()
@@ -1258,6 +1262,18 @@ func c15Stream(o *Out, rng *rand.Rand, n int) {
 	c15Exec(o, "rotation-fixed", c15RotationStory(ring))
 	// 2. refresh || validation under the race detector
 	c15RunChild(o, "concurrent")
+	// 2b. announces while a fetch of the JWK set is in flight and the issuer rotates (c15o.go)
+	{
+		ovl := []c15OIn{c15OScenario(rng, ring, 0), c15OScenario(rng, ring, 1)}
+		nr := 10
+		if os.Getenv("VERIF_TIER") == "thorough" {
+			nr = 120
+		}
+		for i := 0; i < nr; i++ {
+			ovl = append(ovl, c15OScenario(rng, ring, 2))
+		}
+		c15ORun(o, "refresh-overlap", ovl)
+	}
 	// 3. random: single changes on random bases, double changes, rotation histories
 	for i := 0; i < n; i++ {
 		switch r := rng.Intn(20); {
@@ -1314,6 +1330,14 @@ func c15RotationStory(ring *c15Ring) *c15In {
 func c15Replay(o *Out, in map[string]interface{}) error {
 	if jStr(in["t"]) == "child" {
 		c15RunChild(o, "replay")
+		return nil
+	}
+	if jStr(in["t"]) == "overlap" {
+		var oi c15OIn
+		if err := reJSON(in, &oi); err != nil {
+			return err
+		}
+		c15ORun(o, "replay", []c15OIn{oi})
 		return nil
 	}
 	var ci c15In
